@@ -183,7 +183,7 @@ def run_asm(lines, labels, entry, w, limit, stop_labels=()):
         elif op == "end": return hist, "end"
         else: hist.append(ln)
 
-def compare_runs(body, labels_user, text, name, seeds, limit=60):
+def compare_runs(body, labels_user, text, name, seeds, limit=60, norm=None):
     """Compare source and assembly from every entry point under the given worlds.
     Returns None or a description of the first difference."""
     try:
@@ -199,6 +199,7 @@ def compare_runs(body, labels_user, text, name, seeds, limit=60):
                 ha, oa = run_asm(lines, labels, name if e is None else e, w, limit, stop_labels=set(labels_user))
             except AsmError as ex:
                 return "entry=%s: %s" % (e, ex)
+            if norm is not None: ha = [norm(x) for x in ha]
             n = min(len(hs), len(ha))
             ok = hs[:n] == ha[:n] and (os_ == oa or "LIMIT" in (os_, oa)) and ("LIMIT" in (os_, oa) or len(hs) == len(ha))
             if not ok:
